@@ -262,3 +262,55 @@ func dtPkgRowDecode(f refdata.Field, data []byte, tp *refdata.TextPtr) (got inte
 	})
 	return
 }
+
+// dtPkgTwoRows: reference ROWFMT2 + ROW(data1) + ROW(data2) -> library
+// readers (the second row takes its format from the first) -> the values of
+// BOTH rows, read after the second row was decoded.
+func dtPkgTwoRows(f refdata.Field, data1, data2 []byte) (got1, got2 interface{}, stage string, err error, pi *rt.PanicInfo) {
+	enc, e := refdata.RowFmt2([]refdata.Field{f})
+	if e != nil {
+		return nil, nil, "harness", e, nil
+	}
+	fp, e, p := dtLibParseFmt(enc)
+	if e != nil || p != nil {
+		return nil, nil, "parse-rowfmt", e, p
+	}
+	df1, e1 := refdata.DataField(f, data1, nil)
+	df2, e2 := refdata.DataField(f, data2, nil)
+	if e1 != nil || e2 != nil {
+		return nil, nil, "harness", fmt.Errorf("%v / %v", e1, e2), nil
+	}
+	stage = "read-rows"
+	pi = rt.Catch(func() {
+		var last tds.Package = fp
+		var rows []*tds.RowPackage
+		for _, row := range [][]byte{refdata.Row(df1), refdata.Row(df2)} {
+			var pkg tds.Package
+			pkg, err = tds.LookupPackage(tds.Token(row[0]))
+			if err != nil {
+				return
+			}
+			rp, ok := pkg.(*tds.RowPackage)
+			if !ok {
+				err = fmt.Errorf("LookupPackage(TDS_ROW) gave %T", pkg)
+				return
+			}
+			if err = rp.LastPkg(last); err != nil {
+				return
+			}
+			ch := &dtFlatCh{buf: row, pos: 1}
+			if err = rp.ReadFrom(ch); err != nil {
+				return
+			}
+			if ch.pos != len(row) || len(rp.DataFields) != 1 {
+				err = fmt.Errorf("ROW reader consumed %d of %d bytes, %d data fields", ch.pos, len(row), len(rp.DataFields))
+				return
+			}
+			rows = append(rows, rp)
+			last = rp
+		}
+		got1, got2 = rows[0].DataFields[0].Value(), rows[1].DataFields[0].Value()
+		stage = ""
+	})
+	return
+}
